@@ -13,10 +13,10 @@ from mc.canon import short
 
 ID = 'C16'
 LEVEL = 'model_checking'
-RULE = ('E2 explicit-state exploration of library state: events (44: '
+RULE = ('E2 explicit-state exploration of library state: events (48: '
         'construct with defaults, marshal, unmarshal valid, unmarshal '
-        'invalid, failing constructions, the 3 toggles, call-then-mutate-'
-        'the-result composites) applied to a freshly imported pamqp; state = '
+        'invalid, failing constructions, the 3 toggles, a change of the '
+        'caller\'s decimal context, call-then-mutate-the-result composites) applied to a freshly imported pamqp; state = '
         'SHA-256 of a deep snapshot of every pamqp module global, class '
         'attribute and function default/closure; BFS with deduplication '
         '(closes at 2 states on the unchanged tree: switch off/on; the state '
@@ -92,6 +92,8 @@ def run_history(ctx, hist, check_state=None):
     its fresh-interpreter baseline.  Returns (state hash, ok)."""
     p = libstate.fresh_import()
     logging.disable(logging.CRITICAL)
+    import decimal
+    decimal.setcontext(decimal.Context())   # fresh-interpreter environment
     kept = []
     legacy = False
     ok = True
@@ -149,6 +151,7 @@ def run_history(ctx, hist, check_state=None):
     if ok:
         ctx.outcome('ok')
     p.encode.support_deprecated_rabbitmq(False)
+    decimal.setcontext(decimal.Context())
     return digest, legacy, ok
 
 
